@@ -104,6 +104,12 @@ class ZorgFileCompiler(ZorgFileListener):
         get_datetime = partial(
             dt.datetime.strptime, ctx.DATE().getText(), "%Y-%m-%d"
         )
+        try:
+            get_datetime()
+        except ValueError:
+            # The DATE token also matches impossible dates (e.g. 2024-02-30).
+            _LOGGER.debug("Ignoring invalid date", date=ctx.getText())
+            return
         if (
             self._s.in_note
             and self._s.ids_in_note == 1
